@@ -101,6 +101,7 @@ def oracle(ctx, instances, tag, module='FedRoundOracle', extra_consts=None):
   """TLC computes the exact parameters after every round for each instance. Returns list (per instance) of rounds -> list of Fractions."""
   from vf.tlc import Raw  # pylint: disable=g-import-not-at-top
   path = os.path.join(ctx.scratch, f'instances_{tag}.json')
+  instances = [dict(i, mime_slr=i.get('mime_slr', R(1))) for i in instances]
   with open(path, 'w') as f:
     json.dump([{'inst': i, 'events': []} for i in instances], f)
   consts = dict(Instances=Raw('{}'), **TOG)
@@ -155,7 +156,8 @@ def random_instance(rng, fedjax, leaves=2, max_clients=5, rounds=None, dyadic=Tr
     return None
   inst = {'data': data, 'stream': streams, 'init': [R(rng.randint(-2, 2)) for _ in range(leaves)], 'copt': copt, 'sopt': sopt,
           'mu': R(0), 'rounds': rounds, 'cohorts': cohorts}
-  exact = dyadic and all(is_pow2(len(b)) for s in streams for b in s)
+  exact = (dyadic and all(is_pow2(len(b)) for s in streams for b in s)
+           and all(is_pow2(t) or t == 0 for t in (sum(len(data[c - 1]) for c in co) for co in cohorts)))
   if not within_island(dict(inst, mu=R(1))):   # also room for a proximal weight
     return None
   return {'inst': inst, 'h': h, 'exact': exact}
